@@ -346,7 +346,7 @@ Section S.
     keeps o (fst (drain_cache E cache o c)) /\ np c (snd (drain_cache E cache o c)).
   Proof.
     induction cache as [|p rest IH]; intros o c I Ho; cbn [drain_cache fst snd]; [split; [apply keeps_refl|apply np_refl]|].
-    set (o0 := mk_or _ _ _ (List.rev rest) _ _ _ _ _ _ _ _ _ _ _ _ _ _ _ _ _ _).
+    set (o0 := mk_or _ _ _ rest _ _ _ _ _ _ _ _ _ _ _ _ _ _ _ _ _ _).
     assert (K0 : keeps o o0) by apply keeps_set_cache.
     assert (I0 : inv o0) by (eapply inv_keeps; eassumption).
     assert (Ho0 : r_oti o0 <> None) by exact Ho.
@@ -371,8 +371,8 @@ Section S.
     intros I. unfold push_from_cache. destruct (cache_replay_blocked o) eqn:Hblk; [split; [apply keeps_refl|apply np_refl]|].
     assert (Hoti : r_oti o <> None).
     { unfold cache_replay_blocked in Hblk. destruct (r_oti o); [discriminate|discriminate Hblk]. }
-    destruct (drain_cache_keeps (List.rev (r_cache o)) o c I Hoti) as [K N].
-    destruct (drain_cache E (List.rev (r_cache o)) o c) as [o1 c1]. cbn [fst snd] in *.
+    destruct (drain_cache_keeps (r_cache o) o c I Hoti) as [K N].
+    destruct (drain_cache E (r_cache o) o c) as [o1 c1]. cbn [fst snd] in *.
     split; [eapply keeps_trans; [exact K|apply keeps_set_cache]|exact N].
   Qed.
 
